@@ -301,6 +301,18 @@ func runMain(propID, tier string) int {
 			count = v
 		}
 	}
+	if sc := os.Getenv("VERIF_SCALE"); sc != "" {
+		// experiments only (e.g. a fast false-alarm smoke run): scale the tier's scenario count
+		if f, err := strconv.ParseFloat(sc, 64); err == nil && f > 0 {
+			count = int(float64(count) * f)
+			if count < 16 {
+				count = 16
+			}
+			if propID == "C18" {
+				os.Setenv("VERIF_COUNT", strconv.Itoa(count))
+			}
+		}
+	}
 	if count == 0 {
 		fmt.Fprintf(os.Stderr, "no scenario count for tier %q\n", tier)
 		return 2
